@@ -76,6 +76,38 @@ pub fn run(ctx: &Ctx) -> i32 {
             }
         }
     }));
+    // the whole character domain (quick: the Basic Multilingual Plane) in every role a character has in a destination, and in the metadata
+    let top: u64 = if ctx.thorough() { 0x11_0000 } else { 0x1_0000 };
+    let ua = merge(par_fold(top, Acc::new, |cp, acc| {
+        let Some(c) = char::from_u32(cp as u32) else { return };
+        for dest in [format!("/d/{}", c), format!("/{}/f", c), format!("/d/a{}b", c), format!("{}/f", c), format!("/d/f{}", c)] {
+            acc.evals += 1;
+            let case = || json!({"kind": "destination", "destination": dest, "code_point": format!("U+{:04X}", cp)});
+            match catch(|| try_build(&src, Ok(FileOptions::new(dest.clone())), none)) {
+                Err(p) => acc.viol(panic_violation("unicode-scalars", &p, case()).sig("arg", "destination").rank(cp)),
+                Ok(Err(k)) => acc.count(&format!("rejected: {}", k)),
+                Ok(Ok(_)) => {
+                    acc.nontrivial += 1;
+                    acc.count("accepted");
+                    if must_reject(&dest) {
+                        acc.viol(Violation::new("unicode-scalars", format!("destination {:?} cannot be split into a directory and a file name but was accepted", dest), case()).sig("clause", "accepted-unsplittable-destination").rank(cp));
+                    }
+                }
+            }
+        }
+        acc.evals += 1;
+        let t = format!("a{}b", c);
+        let case = || json!({"kind": "metadata", "every text argument": t, "code_point": format!("U+{:04X}", cp)});
+        if let Err(p) = catch(|| {
+            let _ = PackageBuilder::new(&t, &t, &t, &t, &t).description(&t).vendor(&t).url(&t).group(&t).packager(&t).release(&t).compression(none).build().map(|p| {
+                let mut o = vec![];
+                let _ = p.write(&mut o);
+            });
+        }) {
+            acc.viol(panic_violation("unicode-scalars", &p, case()).sig("arg", "metadata").rank(cp));
+        }
+    }));
+    let s1u = SubReport::new("unicode-scalars", "A", &format!("every Unicode scalar value below U+{:X} ({}) as a file name, a directory name, inside and at the end of a file name, in front of the first '/', and inside every text argument of the metadata setters: no panic; Err for destinations that cannot be split", top, if ctx.thorough() { "the whole domain" } else { "the Basic Multilingual Plane; the thorough tier covers the whole domain" }), ua);
     let s1 = SubReport::new("destinations", "A", &format!("every sequence of ≤ {} tokens over {:?} ({} strings) as FileOptions destination through with_file + build; oracle: no panic; Err when the string does not start with '/' or './', has no name component or ends in '..'; non-trivial = accepted", maxlen, DTOK, n), a);
 
     // ---- the same payload path named twice (two with_file calls), in its two spellings './P' and '/P'
@@ -417,6 +449,82 @@ pub fn run(ctx: &Ctx) -> i32 {
         }
     }));
     let s4 = SubReport::new("metadata", "A", "11 hostile strings (empty, NUL, embedded NUL, 70 bytes, 40 two-byte characters, newline, '-', ':') through each required field, all optional scalar setters, scriptlet / dependency / changelog / owner / symlink setters, and 8 mode integers (fifo, out of 16 bits, negative, i32::MAX) through FileOptions::mode; oracle: no panic", d);
+    // ---- destinations in and around the directories that packaging tools treat specially (locale trees, documentation,
+    // licences, debug information, configuration)
+    const SPECIAL: [&str; 22] = [
+        "/usr/share/locale", "/usr/share/man", "/usr/share/doc", "/usr/share/licenses", "/usr/share/info", "/usr/share/help", "/usr/lib/debug", "/usr/lib/.build-id", "/usr/lib/locale",
+        "/usr/lib64", "/usr/lib", "/usr/bin", "/usr/sbin", "/etc", "/var/run", "/run", "/tmp", "/boot", "/dev", "/proc", "/usr/share/man/man1", "/usr/src/debug",
+    ];
+    let mut sdests: Vec<String> = vec![];
+    for d in SPECIAL {
+        for tail in ["/f", "/de/f", "/de/LC_MESSAGES/f.mo", "/pt_BR@latin/f", "/.hidden", "/man1/f.1.gz", "/f/", "", "/", "/../f", "/./f", "//f", ".alias", ".d/f", "-x/f"] {
+            sdests.push(format!("{}{}", d, tail));
+            sdests.push(format!(".{}{}", d, tail));
+        }
+    }
+    let a8 = merge(par_fold(sdests.len() as u64 * 3, Acc::new, |i, acc| {
+        let dest = &sdests[(i / 3) as usize];
+        let kind = i % 3;
+        acc.evals += 1;
+        let case = || json!({"kind": "destination", "destination": dest, "entry": match kind { 0 => "regular file", 1 => "directory", _ => "symbolic link" }});
+        let opts = match kind {
+            0 => FileOptions::new(dest.clone()),
+            1 => FileOptions::new(dest.clone()).mode(rpm::FileMode::dir(0o755)),
+            _ => FileOptions::new(dest.clone()).mode(rpm::FileMode::symbolic_link(0o777)).symlink("target"),
+        };
+        match catch(|| try_build(&src, Ok(opts), none)) {
+            Err(p) => acc.viol(panic_violation("special-directories", &p, case()).sig("arg", "destination").rank(i)),
+            Ok(Err(k)) => acc.count(&format!("rejected: {}", k)),
+            Ok(Ok(_)) => {
+                acc.nontrivial += 1;
+                acc.count("accepted");
+                if must_reject(dest) {
+                    acc.viol(Violation::new("special-directories", format!("destination {:?} cannot be split into a directory and a file name but was accepted", dest), case()).sig("clause", "accepted-unsplittable-destination").rank(i));
+                }
+                if i % 101 == 0 {
+                    acc.sample(i, case);
+                }
+            }
+        }
+    }));
+    let s7 = SubReport::new("special-directories", "A", &format!("{} destinations in, below, beside and equal to 22 directories that packaging tools treat specially (locale and manual trees, documentation, licences, debug information, configuration, /proc, /dev …), in the '/' and './' spellings, each as a regular file, a directory and a symbolic link: no panic; Err when the string cannot be split", sdests.len()), a8);
+    // ---- scriptlets: every interpreter list of ≤ 3 words over a vocabulary of markers and their pieces, for each kind
+    const PWORDS: [&str; 8] = ["", "<", "<lua>", "<é", ">", "<>", "/bin/sh", "é"];
+    let mut plists: Vec<Vec<&str>> = vec![];
+    for len in 0..=3u32 {
+        for code in 0..(PWORDS.len() as u64).pow(len) {
+            plists.push((0..len).map(|i| PWORDS[(code / (PWORDS.len() as u64).pow(i) % PWORDS.len() as u64) as usize]).collect());
+        }
+    }
+    let bodies = ["exit 0", "", "é\n"];
+    let sn = (plists.len() * SCRIPT_KINDS.len() * bodies.len()) as u64;
+    let a7 = merge(par_fold(sn, Acc::new, |i, acc| {
+        let body = bodies[i as usize % bodies.len()];
+        let kind = SCRIPT_KINDS[i as usize / bodies.len() % SCRIPT_KINDS.len()];
+        let list = &plists[i as usize / bodies.len() / SCRIPT_KINDS.len()];
+        acc.evals += 1;
+        let case = || json!({"kind": "scriptlet", "scriptlet": kind, "body": body, "interpreter_list": list});
+        let r = catch(|| {
+            let sc = rpm::Scriptlet::new(body).prog(list.clone()).flags(rpm::ScriptletFlags::EXPAND);
+            let b = crate::spec::script_call(PackageBuilder::new("t", "1", "MIT", "noarch", "s").compression(none), kind, sc);
+            b.build().map(|p| {
+                let mut o = vec![];
+                let _ = p.write(&mut o);
+            })
+        });
+        match r {
+            Err(p) => acc.viol(panic_violation("scriptlets", &p, case()).sig("arg", "scriptlet").rank(i)),
+            Ok(Err(e)) => acc.count(&format!("rejected: {}", err_kind(&e))),
+            Ok(Ok(())) => {
+                acc.nontrivial += 1;
+                acc.count("accepted");
+                if i % 997 == 0 {
+                    acc.sample(i, case);
+                }
+            }
+        }
+    }));
+    let s6 = SubReport::new("scriptlets", "A", &format!("each of the nine scriptlet setters × 3 bodies × every interpreter list of ≤ 3 words over {:?} ({} lists: the built-in interpreter marker, its pieces, a marker ending in a multi-byte character, empty words): build + write, no panic", PWORDS, plists.len()), a7);
     // ---- file modes given as values with public fields: anything can be put into `permissions`
     let mut a6 = Acc::new();
     {
@@ -455,7 +563,7 @@ pub fn run(ctx: &Ctx) -> i32 {
     }
     ctx.finish(
         "exploration",
-        vec![s1, s1b, s1c, s1d, s1e, s1f, s2, s3, s4, s5],
+        vec![s1, s1u, s1b, s1c, s1d, s1e, s1f, s7, s2, s3, s4, s6, s5],
         &[
             "which in-between destinations (e.g. '/a/.', '/../a') are accepted is not specified; they must only not panic and, if accepted, give a usable package",
             "timestamp arguments of non-integer types (chrono dates before 1970) are outside the statement's 'strings and numbers'",
@@ -469,7 +577,25 @@ pub fn replay(ctx: &Ctx, v: &Value) -> i32 {
     let src = env.source(&Content::Bytes(b"hello".to_vec()), 0o644, 1_500_000_000);
     let c = &v["case"];
     let r = match c["kind"].as_str() {
-        Some("destination") => catch(|| try_build(&src, Ok(FileOptions::new(c["destination"].as_str().unwrap_or(""))), CompressionWithLevel::None)),
+        Some("destination") => catch(|| {
+            let d = c["destination"].as_str().unwrap_or("");
+            let o = match c["entry"].as_str() {
+                Some("directory") => FileOptions::new(d).mode(rpm::FileMode::dir(0o755)),
+                Some("symbolic link") => FileOptions::new(d).mode(rpm::FileMode::symbolic_link(0o777)).symlink("target"),
+                _ => FileOptions::new(d),
+            };
+            try_build(&src, Ok(o), CompressionWithLevel::None)
+        }),
+        Some("scriptlet") => catch(|| {
+            let list: Vec<String> = c["interpreter_list"].as_array().map(|a| a.iter().map(|x| x.as_str().unwrap_or("").to_string()).collect()).unwrap_or_default();
+            let sc = rpm::Scriptlet::new(c["body"].as_str().unwrap_or("")).prog(list).flags(rpm::ScriptletFlags::EXPAND);
+            let kind = SCRIPT_KINDS.iter().find(|k| Some(**k) == c["scriptlet"].as_str()).copied().unwrap_or("pre_install");
+            crate::spec::script_call(PackageBuilder::new("t", "1", "MIT", "noarch", "s").compression(CompressionWithLevel::None), kind, sc).build().map_err(|e| err_kind(&e)).map(|p| {
+                let mut o = vec![];
+                let _ = p.write(&mut o);
+                o
+            })
+        }),
         Some("caps") => catch(|| try_build(&src, FileOptions::new("/usr/bin/f").caps(c["caps"].as_str().unwrap_or("")), CompressionWithLevel::None)),
         _ => {
             println!("re-run ./check C17 for this case kind: {}", c);
